@@ -1,7 +1,52 @@
 import Cherab.Drv.Proto
-open Cherab.Drv
+import Cherab.Model.Adf
+import Cherab.Model.AdfText
+open Cherab.Drv Cherab.Adf Cherab.Adf.Text
 
-/-- C08 driver: not yet implemented (echo) -/
+/-!
+C08 driver.  One command per generated file: the tables arrive as opaque numeric tokens, the driver renders the file
+with the model's writer (abstract lines → text), parses the *text* with the layer-1 views and the abstract lines with
+the canonical views, and answers  `text # result-from-text # 1/0 (both parses agree)`.
+Text lines are joined with `|`.
+-/
+
+def vec (xs : List String) : String := ",".intercalate xs
+def mat (xs : List (List String)) : String := "/".intercalate (xs.map vec)
+def joinLines (ls : List String) : String := "|".intercalate ls
+
+def takeN (n : Nat) (ts : List String) : List String × List String := (ts.take n, ts.drop n)
+
+def fnOf (xs : List String) : Nat → String := fun i => xs.getD i "?"
+/-- flat list stored as `outer*inner` with the *second* index outer: f i j = flat[j*nI + i] -/
+def fn2 (nI : Nat) (xs : List String) : Nat → Nat → String := fun i j => xs.getD (j * nI + i) "?"
+
+def show2x : Except Err (Out2x String) → String
+  | .error e => "err " ++ e.toString
+  | .ok o => "ok e:" ++ vec o.e ++ ";n:" ++ vec o.n ++ ";t:" ++ vec o.t ++ ";sen:" ++ mat o.sen ++ ";st:" ++ vec o.st
+      ++ ";eref:" ++ o.eref ++ ";nref:" ++ o.nref ++ ";tref:" ++ o.tref ++ ";sref:" ++ o.sref
+
+def cmd2x (ts : List String) : String :=
+  match ts with
+  | zt :: spec :: svref :: tref :: eref :: dref :: neb :: ndt :: ntt :: rest =>
+    let neb := pN neb; let ndt := pN ndt; let ntt := pN ntt
+    let (eb, rest) := takeN neb rest
+    let (dt, rest) := takeN ndt rest
+    let (tt, rest) := takeN ntt rest
+    let (svt, rest) := takeN ntt rest
+    let t : Tab2x String := { zt := pN zt, spec := spec, svref := svref, tref := tref, eref := eref, dref := dref,
+                              eb := eb, dt := dt, tt := tt, svt := fnOf svt, sv := fn2 neb rest }
+    let ks := render2x t
+    let text := ks.map text2x
+    let a := parse2x lexK2x ks
+    let b := parse2x lex2x text
+    joinLines text ++ "#" ++ show2x b ++ "#" ++ fB (show2x a == show2x b)
+  | _ => "bad-args"
+
+def step (ts : List String) : String :=
+  match ts with
+  | "adf2x" :: r => cmd2x r
+  | _ => "bad-op"
+
 def main : IO UInt32 := do
-  loop (stateless fun ts => " ".intercalate ts) (← IO.getStdin) (← IO.getStdout) ()
+  loop (stateless step) (← IO.getStdin) (← IO.getStdout) ()
   return 0
